@@ -119,7 +119,7 @@ func suiteMatchDoc(tier string, seed uint64, model string) *Report {
 	r := NewRng(seed)
 	n := 8000
 	if tier == "thorough" {
-		n = 100000
+		n = 400000
 	}
 	type cs struct {
 		targets [][]Frag
